@@ -145,6 +145,7 @@ impl Prop for C14 {
 			decimals: rng.chance(1, 3),
 			max_fields: 2 + rng.below(5) as u32,
 			record_bias: true,
+			wide_decimal_fixed: rng.chance(1, 3),
 		};
 		// root is a record most of the time
 		let mut schema = ast::gen_schema(rng, cfg);
@@ -154,10 +155,17 @@ impl Prop for C14 {
 			}
 			schema = ast::gen_schema(rng, cfg);
 		}
+		let mut scale = None;
+		if rng.chance(1, 40) {
+			// deliberately large-scale: hundreds of (reordered, buffered) fields, long arrays, deep lists
+			let (ty, sc) = ast::gen_scale_schema(rng, true);
+			schema = ty;
+			scale = Some(sc);
+		}
 		let env = Env::build(&schema);
-		let vcfg = ValCfg { max_len: 1 + rng.usize(4), max_depth: 4, budget: 10 + rng.below(40) as i32, str_boost: 0 };
+		let vcfg = ValCfg { max_len: 1 + rng.usize(4), max_depth: 4, budget: 10 + rng.below(40) as i32, str_boost: 0, scale: None }.with_scale(scale);
 		let allow_slow = rng.bool();
-		let n = 1 + rng.usize(6);
+		let n = if scale.is_some() { 1 + rng.usize(3) } else { 1 + rng.usize(6) };
 		let mut attempts = vec![];
 		for _ in 0..n {
 			let v = val::gen_val(rng, &env, &schema, &vcfg);
@@ -193,6 +201,11 @@ impl Prop for C14 {
 
 	fn exec(&self, scn: &Scn) -> Outcome {
 		let mut out = Outcome::default();
+		{
+			let mut classes = vec![];
+			scn.attempts.iter().for_each(|a| crate::val::scale_classes(&a.val, &mut classes));
+			classes.into_iter().for_each(|c| out.count(c, 1));
+		}
 		let env = Env::build(&scn.schema);
 		let schema = match world::parse_schema(&scn.schema) {
 			Ok(s) => s,
